@@ -1,6 +1,7 @@
 package core
 
 import (
+	"fmt"
 	"go/constant"
 	"go/token"
 	"go/types"
@@ -1101,6 +1102,67 @@ func ChanOps(p *Prog) []ChanOp {
 	mk := func(kind string, f *ssa.Function, ins ssa.Instruction, ch ssa.Value, via string, blocking bool) {
 		out = append(out, ChanOp{Kind: kind, Fn: f, Instr: ins, Chan: ch, Field: FieldKey(ch), Base: FieldBase(ch), Via: via, Blocking: blocking, Alt: alt})
 		alt = false
+	}
+	// a channel operation passed in as a function value (`q.receive(ChannelQueue[T].Take)`, `q.receive(func(ch) { …
+	// })`): where the function parameter of an unexported helper is called with a channel, and every call site of the
+	// helper passes a known function, the call does what those functions do with that argument
+	for _, f := range p.Funcs {
+		for pi, prm := range f.Params {
+			if _, isSig := prm.Type().Underlying().(*types.Signature); !isSig {
+				continue
+			}
+			var dyn []*ssa.Call
+			Instrs(f, func(ins ssa.Instruction) {
+				if call, ok := ins.(*ssa.Call); ok && !call.Call.IsInvoke() && Callee(&call.Call) == nil && Resolve(call.Call.Value) == ssa.Value(prm) {
+					dyn = append(dyn, call)
+				}
+			})
+			if len(dyn) == 0 {
+				continue
+			}
+			sites, complete := CallSites(p, f)
+			if !complete || len(sites) == 0 {
+				continue
+			}
+			var fns []*ssa.Function
+			known := true
+			for _, st := range sites {
+				ci, isCI := st.Instr.(ssa.CallInstruction)
+				if !isCI || pi >= len(ci.Common().Args) || Callee(ci.Common()) != f {
+					known = false
+					break
+				}
+				fv := ResolveFuncValue(p, ci.Common().Args[pi])
+				if fv == nil || fv.Fn == nil {
+					known = false
+					break
+				}
+				fns = append(fns, fv.Fn)
+			}
+			if !known {
+				continue
+			}
+			for _, call := range dyn {
+				seen := map[string]bool{}
+				for _, fn := range fns {
+					for j, ops := range summ[fn] {
+						if j >= len(call.Call.Args) {
+							continue
+						}
+						for _, o := range ops {
+							a := altAt(o, call.Call.Args)
+							k := fmt.Sprintf("%s/%d/%v/%v", o.Kind, j, o.Blocking, a)
+							if seen[k] {
+								continue
+							}
+							seen[k] = true
+							alt = a
+							mk(o.Kind, f, call, call.Call.Args[j], FuncName(fn), o.Blocking)
+						}
+					}
+				}
+			}
+		}
 	}
 	for _, f := range p.Funcs {
 		Instrs(f, func(ins ssa.Instruction) {
